@@ -69,3 +69,90 @@ def run(prog, chk):
                 r3.ok(key)
             else:
                 r3.violation(fn.file, fn.name, n.get("l"), "refusal-code:%s" % m, "refusal with %s" % m)
+
+    r4 = chk.rule("R4-digit-runs-consumed-whole", "in cif_value_parse_numb a run of digits is left only because the next character is "
+                  "not a digit: wherever the character at the scan position is compared with a non-digit (exponent mark, "
+                  "parenthesis, terminator) every path since the last step over a digit has failed a digit test - no digit loop "
+                  "stops on an accumulator or counter, which would leave digits behind and refuse a well-formed number", primary=False, floor=4)
+    digit_runs(prog, fn, r4)
+
+
+def digit_runs(prog, fn, rule):
+    from .. import loops
+    text = fn.params[1]["name"] if len(fn.params) > 1 else None
+    if text is None:
+        raise Broken("cif_value_parse_numb: text parameter not found")
+
+    def scan_char(e):
+        """e is text[v] for a plain variable v -> v"""
+        e = strip(e)
+        if isinstance(e, dict) and e.get("k") == "index" and path(strip(e.get("base"))) == text:
+            ix = strip(e.get("idx"))
+            if isinstance(ix, dict) and ix.get("k") == "ref":
+                return ix["name"]
+        return None
+
+    # digit tests: false edge of  text[v] >= '0' / text[v] <= '9'  (true edge of  < '0' / > '9')
+    def digit_fail_edges(var):
+        def m(cnd):
+            t = cfgq.cmp_test(cnd, lambda e: scan_char(e) == var)
+            if t is None:
+                return None
+            if t in ((">=", 0x30), ("<=", 0x39), (">", 0x2F), ("<", 0x3A)):
+                return "false"
+            if t in (("<", 0x30), (">", 0x39), ("<=", 0x2F), (">=", 0x3A)):
+                return "true"
+            return None
+        return cfgq.guard_edges(fn, m)
+
+    cursors = set()
+    for b in fn.blocks.values():
+        c = cfgq.cond_of(fn, b)
+        if c is not None:
+            t = cfgq.cmp_test(c, lambda e: scan_char(e) is not None)
+            if t and t[0] in ("<", "<=", ">", ">=") and t[1] in (0x2F, 0x30, 0x39, 0x3A):
+                for x in walk(c):
+                    v = scan_char(x)
+                    if v:
+                        cursors.add(v)
+    if not cursors:
+        raise Broken("cif_value_parse_numb: no digit-range test on %s[..] found" % text)
+    n_sites = 0
+    for var in sorted(cursors):
+        edges = digit_fail_edges(var)
+        test_blocks = {bid for (bid, idx) in edges}
+        dloops = [lp for lp in loops.natural_loops(fn) if lp.body & test_blocks]
+        kills = []
+        for lp in dloops:
+            for bid in lp.body:
+                for i, r in enumerate(fn.blocks[bid].roots):
+                    rd, wr, calls, dw, dr = loops.rw(r)
+                    if var in wr:
+                        kills.append((bid, i))
+        if not dloops or not kills:
+            raise Broken("cif_value_parse_numb: no digit loop advancing `%s` found" % var)
+        mf = cfgq.MustFact(fn, gen_edges=edges, kill_sites=kills, entry_value=True)
+        in_loops = set().union(*[lp.body for lp in dloops])
+        for (b, i, r, n) in fn.eval_sites("bin"):
+            if n.get("op") not in ("==", "!="):
+                continue
+            for x, o in ((n.get("lhs"), n.get("rhs")), (n.get("rhs"), n.get("lhs"))):
+                c = const(o)
+                if scan_char(x) != var or c is None or 0x30 <= c <= 0x39:
+                    continue
+                if b.id in in_loops:
+                    continue        # part of a digit loop's own continuation test (the decimal point)
+                n_sites += 1
+                key = "L%s:%s[%s] %s %#x" % (n.get("l"), text, var, n.get("op"), c)
+                v = mf.at(b.id, i)
+                if v is None or v:
+                    rule.ok(key, "every digit run before it ended on a failed digit test")
+                else:
+                    rule.violation(fn.file, fn.name, n.get("l"), "digits-left-behind:L%s" % n.get("l"),
+                                   "`%s[%s]` is compared with a non-digit at L%s on a path that left a digit loop (lines %s) without "
+                                   "the digit test having failed: the loop can stop on something other than the character class, "
+                                   "remaining digits are then taken for an unparsed tail and a well-formed number is refused"
+                                   % (text, var, n.get("l"), ", ".join(str(fn.blocks[lp.header].term.get("l")) for lp in dloops if fn.blocks[lp.header].term)))
+    if n_sites < 4:
+        raise Broken("cif_value_parse_numb: only %d comparisons of the scan character with non-digits found" % n_sites)
+
